@@ -143,6 +143,7 @@ int MPI_Irecv(void* b, int n, MPI_Datatype dt, int src, int tag, MPI_Comm c, MPI
 int MPI_Iallreduce(const void* s, void* r, int n, MPI_Datatype dt, MPI_Op op, MPI_Comm c, MPI_Request* rq) {
   int id = g_next_req++; g_reqs[id] = CReq{2, r, n * dtsize(dt)};
   call(OP_ICOLL, {c, CK_ALLREDUCE, dt, op, n, id}, s, n * dtsize(dt)); *rq = id; return MPI_SUCCESS; }
+int MPI_Ibarrier(MPI_Comm c, MPI_Request* rq) { int id = g_next_req++; g_reqs[id] = CReq{2, nullptr, 0}; call(OP_ICOLL, {c, CK_BARRIER, 0, 0, 0, id}, nullptr, 0); *rq = id; return MPI_SUCCESS; }
 int MPI_Cancel(MPI_Request* rq) { call(OP_CANCEL, {*rq}); g_reqs.erase(*rq); return MPI_SUCCESS; }
 int MPI_Get_count(const MPI_Status* st, MPI_Datatype dt, int* n) { *n = st->_count / (int)dtsize(dt); return MPI_SUCCESS; }
 int MPI_Test(MPI_Request* rq, int* flag, MPI_Status* st) {
